@@ -71,7 +71,9 @@ func (k Keeper) IterateDelegationsForStakerAndAsset(ctx sdk.Context, stakerID st
 }
 
 func (k Keeper) IterateDelegationsForStaker(ctx sdk.Context, stakerID string, opFunc DelegationOpFunc) error {
-	return k.IterateDelegations(ctx, []byte(stakerID), opFunc)
+	// the keys are stakerID/assetID/operator: end the prefix with the separator, or the staker of a chain
+	// whose hex id merely extends this one (…_0x65 and …_0x651) is iterated as well
+	return k.IterateDelegations(ctx, []byte(stakerID+"/"), opFunc)
 }
 
 // TotalDelegatedAmountForStakerAsset query the total delegation amount of the specified staker and asset.
